@@ -178,6 +178,14 @@ class ScriptedSim(mosaik_api_v3.Simulator):
                 self._rec(op="async", kind="set_event", sid=self.sid, time=time, k=k, t=act[1])
                 yield self.mosaik.set_event(act[1])
 
+        # --- a step that blocks the whole process (what every in-process simulator does while it computes):
+        # the virtual clock advances without the event loop running
+        blk = beh.get("block")
+        if blk and REC.ctl is not None or blk and REC.clock is not None:
+            d_blk = blk.get(str(time), blk.get("*", 0)) if isinstance(blk, dict) else blk
+            ctl_ = getattr(REC, "ctl_for_clock", None)
+            if d_blk and ctl_ is not None:
+                ctl_.now += d_blk
         # --- step duration / latency ---------------------------------------
         dur = self._duration(time, k, rng)
         if dur:
@@ -230,6 +238,8 @@ class ScriptedSim(mosaik_api_v3.Simulator):
         otime = None
         if beh.get("p_future", 0.0) and rng.random() < beh["p_future"]:
             otime = time + rng.randrange(1 + beh.get("horizon", 2))
+        if beh.get("future_at_k") is not None and k == beh["future_at_k"]:
+            otime = time + 1          # leave the same-time loop by announcing the output for the next time
         flt = self._reply_fault("step")
         if flt is not None:
             nxt = self._mangle_next(flt, time, nxt)
